@@ -2,14 +2,19 @@ import QrlModel.Model.Dilithium
 import QrlModel.Props.C12
 import QrlModel.Props.C13
 import QrlModel.Props.C15
+import QrlModel.Proofs.DilSpec
 /-! # C07 — Dilithium keys and signatures equal the Dilithium5 (round 3.1) specification
 
-Component theorems, each for all inputs: the scalar functions equal their textbook definitions (C12), the
-packers are lossless (C13), the samplers are the specified functions of an arbitrary byte stream, signing
-is a function of (sk, message) — no randomness, no hidden state (effect table, C15). The top-level equality
-with a schoolbook-arithmetic specification needs the NTT theorem and is `…_partial` until then; it rests
-on the correspondence run (key generation and signatures byte-compared with the executable model, the
-boundary corpus of rejection tests met with equality, samplers presented with boundary buffers). -/
+`keygen_spec`: key generation of the model *is* the specification's: t̂ = Â·ŝ1 + ŝ2 in the NTT domain over `ZMod q`
+(with `ntt_is_evaluation` of C12: the NTT is evaluation at the 256 roots in the table's order, and `INV ∘ NTT = 256`
+makes it injective), `t` the canonical representative in [0, q), t = t1·2^13 + t0 with the specified ranges, and the
+byte layout of pk and sk — for every seed and arbitrary XOFs. `sign_w_spec`, `sign_z_spec`: the signer's ŵ = Â·ŷ
+and ẑ = ĉ·ŝ1 + ŷ. Component theorems, each for all inputs: the scalar functions equal their textbook definitions
+(C12), the packers are lossless (C13), `rejUniform` is the specified function of an arbitrary byte stream, signing
+has no hidden inputs (effect table, C15). **Partial:** "the signature bytes equal a separately written
+specification-level signer" is not a single theorem; what the signer computes is characterised by the equations
+above plus C03.verify_sign, and the library is compared byte for byte with the executable model (oracle ops) on
+seeds × messages and the boundary corpus. -/
 namespace Qrl.C07
 open Qrl.Dil Gen.Dil
 
@@ -63,5 +68,41 @@ theorem sign_has_no_hidden_inputs :
 /-- the parameter set is Dilithium5 (round 3.1): K=8, L=7, η=2, τ=60, β=120, γ1=2^19, γ2=(q−1)/32, ω=75 -/
 theorem parameter_set : K = 8 ∧ L = 7 ∧ ETA = 2 ∧ TAU = 60 ∧ BETA = 120 ∧ GAMMA1 = 524288 ∧ GAMMA2 = 261888 ∧ OMEGA = 75 ∧
     Q = 8380417 ∧ D = 13 ∧ CryptoPublicKeyBytes = 2592 ∧ CryptoSecretKeyBytes = 4864 ∧ CryptoBytes = 4595 := by decide
+
+section
+variable (shake128 shake256 : Bytes → Nat → Bytes)
+open NttBridge VecF
+
+/-- **key generation = specification** (see `NttBridge.keygen_spec` for the reading of each conjunct) -/
+theorem keygen_spec (hx : XofLen shake128 shake256) (seed : Bytes) (hE : Expanded shake128 shake256 seed) :
+    (keypair shake128 shake256 seed).pk = kRho shake256 seed ++ (kT1 shake128 shake256 seed).flatMap polyT1Pack ∧
+    (keypair shake128 shake256 seed).sk = kRho shake256 seed ++ kKey shake256 seed ++ shake256 (keypair shake128 shake256 seed).pk 32 ++
+      (kS1 shake256 seed).flatMap polyEtaPack ++ (kS2 shake256 seed).flatMap polyEtaPack ++ (kT0 shake128 shake256 seed).flatMap polyT0Pack ∧
+    (kT shake128 shake256 seed).map (fun t => NTT (V t)) =
+      List.zipWith (fun row s2i => List.zipWith (· + ·) (accF 1 (row.map V) (((kS1 shake256 seed).map V).map NTT)) (NTT (V s2i)))
+        (kMat shake128 shake256 seed) (kS2 shake256 seed) ∧
+    (∀ t ∈ kT shake128 shake256 seed, Good 0 8380416 t ∧ ∀ x ∈ t,
+      x.toInt = (power2Round x).1.toInt * 8192 + (power2Round x).2.toInt ∧ 0 ≤ (power2Round x).1.toInt ∧ (power2Round x).1.toInt ≤ 1023 ∧
+      -4095 ≤ (power2Round x).2.toInt ∧ (power2Round x).2.toInt ≤ 4096) ∧
+    (∀ row ∈ kMat shake128 shake256 seed, ∀ p ∈ row, Good 0 8380416 p) ∧
+    (∀ p ∈ kS1 shake256 seed, Good (-2) 2 p) ∧ (∀ p ∈ kS2 shake256 seed, Good (-2) 2 p) :=
+  NttBridge.keygen_spec shake128 shake256 hx seed hE
+
+end
+
+/-- the signer's `w`: ŵ_i = Σ_j Â_ij·ŷ_j over `ZMod q`, `w` canonical in [0, q) — for every matrix row with entries in
+[0, q) and every mask vector with coefficients in (−γ1, γ1] -/
+theorem sign_w_spec (row y : List Poly) (hrow : ∀ p ∈ row, NttBridge.Good 0 8380416 p) (hrl : row.length ≤ 8)
+    (hy : ∀ p ∈ y, NttBridge.Good (-524287) 524288 p) :
+    NttBridge.NTT (NttBridge.V (NttBridge.sigW row y)) = VecF.accF 1 (row.map NttBridge.V) ((y.map NttBridge.V).map NttBridge.NTT) ∧
+    NttBridge.Good 0 8380416 (NttBridge.sigW row y) := NttBridge.sigW_spec row y hrow hrl hy
+
+/-- the signer's response: ẑ_j = ĉ·ŝ1_j + ŷ_j over `ZMod q` -/
+theorem sign_z_spec (c : Poly) (hc : NttBridge.Good (-1) 1 c) (s1 y : List Poly) (hs1 : ∀ p ∈ s1, NttBridge.Good (-2) 2 p)
+    (hy : ∀ p ∈ y, NttBridge.Good (-524287) 524288 p) :
+    ((NttBridge.sigZ (ntt c) s1 y).map NttBridge.V).map NttBridge.NTT =
+      List.zipWith (fun s y => List.zipWith (· + ·) (List.zipWith (· * ·) (NttBridge.NTT (NttBridge.V c)) s) y)
+        ((s1.map NttBridge.V).map NttBridge.NTT) ((y.map NttBridge.V).map NttBridge.NTT) :=
+  NttBridge.sigZ_spec c hc s1 y hs1 hy
 
 end Qrl.C07
